@@ -203,3 +203,40 @@ Theorem C08_active_cooldown_refuses : forall now w ws a st, cooldown_active w = 
   fst (run (cross_post_steps now ws w a) st) <> Accept.
 Proof. exact active_cooldown_refuses. Qed.
 Print Assumptions C08_active_cooldown_refuses.
+
+(* ---- the default board is known by its NAME. [is_default_board dflt name] mirrors postpermMsg's test
+   types.Cstrcmp(board.Brdname[:], ptttype.DEFAULT_BOARD) == 0 with the name of the default board as an input: for names as
+   they occur (no NUL, at most 12 bytes) a board is the default board exactly when it carries the very same name *)
+Theorem C08_default_board_rule : forall dflt name, id_ok 12 name -> id_ok 12 dflt ->
+  (is_default_board dflt name = true <-> name = dflt).
+Proof. exact default_board_exact. Qed.
+Print Assumptions C08_default_board_rule.
+
+(* a second board whose name merely STARTS with the default board's name (SYSOPnote next to SYSOP) is not the default
+   board, and neither is one whose name is a proper prefix of it *)
+Theorem C08_default_board_not_extension : forall dflt rest, id_ok 12 (dflt ++ rest) -> id_ok 12 dflt -> rest <> [] ->
+  is_default_board dflt (dflt ++ rest) = false.
+Proof. exact default_board_not_extension. Qed.
+Print Assumptions C08_default_board_not_extension.
+Theorem C08_default_board_not_prefix : forall name rest, id_ok 12 name -> id_ok 12 (name ++ rest) -> rest <> [] ->
+  is_default_board (name ++ rest) name = false.
+Proof. exact default_board_not_prefix. Qed.
+Print Assumptions C08_default_board_not_prefix.
+
+(* on a board with any other name the coded permission test is the rule set WITHOUT the default-board exception
+   ([posting_rules_ordinary]: post permission unless guest-post, friends only where restricted, violate-law users only
+   where admitted, the extra level bits) ... *)
+Theorem C08_other_name_ordinary_rules : forall dflt name w, w_default w = is_default_board dflt name ->
+  id_ok 12 name -> id_ok 12 dflt -> name <> dflt -> (postperm w = 0 <-> posting_rules_ordinary w = true).
+Proof. exact other_name_ordinary_rules. Qed.
+Print Assumptions C08_other_name_ordinary_rules.
+
+(* ... and whoever that rule refuses is refused by each of the four operations, without a trace *)
+Theorem C08_other_name_refused : forall dflt name now w ws a st, w_default w = is_default_board dflt name ->
+  id_ok 12 name -> id_ok 12 dflt -> name <> dflt -> posting_rules_ordinary w = false ->
+  (fst (run (new_post_steps now w) st) <> Accept /\ frame (snd (run (new_post_steps now w) st)) = frame st) /\
+  (fst (run (recommend_steps now w a) st) <> Accept /\ frame (snd (run (recommend_steps now w a) st)) = frame st) /\
+  (fst (run (edit_post_steps w a) st) <> Accept /\ frame (snd (run (edit_post_steps w a) st)) = frame st) /\
+  (fst (run (cross_post_steps now ws w a) st) <> Accept /\ frame (snd (run (cross_post_steps now ws w a) st)) = frame st).
+Proof. exact other_name_refused. Qed.
+Print Assumptions C08_other_name_refused.
